@@ -16,7 +16,9 @@ func init() {
 			"R16.2: Update of an existing token and Delete mutate the map and rewrite the file only under etag == state.etag() evaluated after a load() in the same critical section; a new token is appended only under etag == \"\". " +
 			"R16.3: when the rewrite fails the previous map entry is restored before the error is returned. " +
 			"R16.4: rewrite replaces the file through a temporary file in the same directory, renamed only after every Encode and the Close succeeded, removing the temporary file on error; add appends exactly one record with O_APPEND; nothing else in package token writes files. " +
-			"R16.5: the API handlers pass to token.Update/Delete the tag their preconditions were evaluated against.",
+			"R16.6: outside package token the object returned by token.Get is only read: no field store goes through it and it is never handed to Update (edits are made on a Clone). " +
+			"R16.5: the API handlers pass to token.Update/Delete the tag their preconditions were evaluated against, unchanged since the evaluation. " +
+			"R16.6: outside package token the object returned by token.Get is only read: no field store goes through it and it is never handed to Update (edits are made on a Clone).",
 		NotDecided: []string{
 			"that the honoured set equals what a fresh server reads after every history (rewrite() re-loads the file through list(), external edits, size/mtime collisions)",
 			"atomicity at crash points (rests on rename(2); the temporary token file is not fsynced - power loss is outside the stated model)",
@@ -33,6 +35,7 @@ func runC16(c *Ctx) {
 	c.Rule("R16.3", "E2", "rollback of the in-memory entry when the rewrite fails", 2)
 	c.Rule("R16.4", "E3", "atomic replace of the token file; append-only add; no other writer", 6)
 	c.Rule("R16.5", "E2", "API handlers hand the tested tag to the token store", 2)
+	c.Rule("R16.6", "E2", "the store's in-memory tokens are never edited in place by callers", 3)
 
 	// ---- R16.1 ----
 	la := NewLockAnalysis(p)
@@ -266,4 +269,70 @@ func runC16(c *Ctx) {
 
 	// ---- R16.5 ----
 	condHandlers(c, "R16.5", func(name string) bool { return strings.HasPrefix(name, "token.") }, false)
+
+	// ---- R16.6 ----
+	// What token.Get returns is the store's own in-memory object.  Outside
+	// package token it may be read, but an edit must be made on a copy that
+	// only becomes current through Update (compare, write, roll back).
+	stn := p.TypeName("token", "Stateful")
+	tpk := p.Pkg("token")
+	if stn == nil || tpk == nil {
+		c.Unknown("R16.6", "anchors", 0, "token.Stateful not found")
+		return
+	}
+	eng = p.Facts()
+	k6 := newKeyer()
+	nget := 0
+	for _, fs := range p.Sources() {
+		if fs.Pkg == tpk || fs.Lit != nil {
+			continue
+		}
+		info := fs.Pkg.TypesInfo
+		var gets []*ast.CallExpr
+		ast.Inspect(fs.Body(), func(n ast.Node) bool {
+			if call, ok := n.(*ast.CallExpr); ok && fnIs(calleeOf(&CallSite{Call: call, In: fs}), "token", "", "Get") {
+				gets = append(gets, call)
+			}
+			return true
+		})
+		if len(gets) == 0 {
+			continue
+		}
+		ff := eng.Analyze(fs)
+		isStored := func(at ast.Node, e ast.Expr) bool {
+			for _, g := range gets {
+				if argIsResult(ff, at, e, g, 0) {
+					return true
+				}
+			}
+			return false
+		}
+		for _, g := range gets {
+			nget++
+			bad := ""
+			ast.Inspect(fs.Body(), func(n ast.Node) bool {
+				switch x := n.(type) {
+				case *ast.AssignStmt:
+					for _, l := range x.Lhs {
+						sel, ok := unparen(l).(*ast.SelectorExpr)
+						if !ok || !isPtrTo(info.TypeOf(sel.X), stn) {
+							continue
+						}
+						if argIsResult(ff, x, sel.X, g, 0) {
+							bad = p.PosStr(x.Pos()) + " (field store through the stored token)"
+						}
+					}
+				case *ast.CallExpr:
+					if fnIs(calleeOf(&CallSite{Call: x, In: fs}), "token", "", "Update") && len(x.Args) == 2 && isStored(x, x.Args[0]) && argIsResult(ff, x, x.Args[0], g, 0) {
+						bad = p.PosStr(x.Pos()) + " (the stored object itself is handed to Update)"
+					}
+				}
+				return true
+			})
+			c.Check(bad == "", "R16.6", k6.key("token.Get in", fs.Name), g.Pos(), "the object returned by the store is only read; edits go to a clone", "the store's in-memory token is edited in place at "+bad+": an edit that fails or loses the tag comparison still takes effect in memory, and the next rewrite makes it durable")
+		}
+	}
+	if nget < 3 {
+		c.Bad("R16.6", "token.Get sites", 0, "only %d callers of token.Get found", nget)
+	}
 }
